@@ -78,6 +78,7 @@ Route(extEnabled, extOk) ==
 (* ---- dispatch of ops on a PackedTensor ------------------------------------------ *)
 Dispatch(op) ==
   CASE op = "detach"   -> "packed"
+    [] op = "clone"    -> "packed"
     [] op = "to_uint8" -> "packed"
     [] op = "to_other" -> "ValueError"
     [] OTHER           -> "on_unpacked"
